@@ -275,6 +275,13 @@ def cache_coherence(ctx, rule):
     ok1 = "arg1.sources[cast<usize>(arg2)]" in calls
     ok2 = "try(Option::as_mut(arg1.sources_prefixed))[cast<usize>(arg2)]" in calls
     ok3 = "SourceMap::prefix_source(Option::unwrap(Option::as_ref(arg1.source_root)),arg3)" in calls
+    raw_w = [bi for bi, t in s.calls() if q.nice(t.get("callee")) == "IndexMut::index_mut" and q.shape(s.expr_of_call(t)) == "arg1.sources[cast<usize>(arg2)]"]
+    ctx.check(len(raw_w) == 1 and all(s.dominates(raw_w[0], r) for r in s.return_blocks()), rule, s.path, "set_source:unconditional",
+              "set_source always stores the raw name (no early return, e.g. for a value that merely looks unchanged through the root-joined view)")
+    patch_w = [bi for bi, t in s.calls() if q.nice(t.get("callee")) == "IndexMut::index_mut" and "sources_prefixed" in q.shape(s.expr_of_call(t))]
+    for pw in patch_w:
+        conds = [f.key() for f in q.facts_at(s, pw, {}) if f.op in ("Lt", "Le", "Eq", "Ne", "true", "false")]
+        ctx.check(not conds, rule, s.path, "set_source:patch-whenever-cached", "the cache entry is patched whenever a cache exists (no further condition)", detail=str(conds))
     ctx.check(ok1 and ok2 and ok3, rule, s.path, "set_source:patch", "set_source stores the raw name and patches the same index of the cache with prefix_source(current root, value)", detail=str(calls)[:400])
     g = ctx.body("types::SourceMap::get_source")
     calls = [q.shape(g.expr_of_call(t)) for bi, t in g.calls()]
@@ -386,7 +393,7 @@ def contents_resize(ctx, rule):
         if ctx.check(len(ix) == 1 and len(rz) == 1, rule, fn, "indexed-write", "the entry is written by index"):
             C, S = "Vec::len(arg1.%s)" % vec, "Vec::len(arg1.sources)"
             # the resize runs at least whenever the vector is shorter than sources (<, <= and != all do)
-            guards = [f.key() for f in q.facts_at(b, rz[0][0], {}) if f.op in ("Lt", "Le", "Eq", "Ne", "true", "false") and (C in str(f.key()) or S in str(f.key()))]
+            guards = [f.key() for f in q.facts_at(b, rz[0][0], {}) if f.op in ("Lt", "Le", "Eq", "Ne", "true", "false") and ("arg1.%s" % vec in str(f.key()) or "arg1.sources" in str(f.key()))]
             ok = guards in ([], [("Lt", C, S)], [("Le", C, S)], [("Ne", C, S)], [("Ne", S, C)]) and b.reaches(rz[0][0], ix[0])
             # ... and every path to the write passed the comparison (or the unconditional resize)
             sw = [c.bb for c in q.path_conditions(b, rz[0][0])][-1:] or [rz[0][0]]
@@ -506,6 +513,10 @@ def index_lookup(ctx, rule):
     """C08.R1."""
     b = ctx.body(ILOOKUP)
     fn = b.path
+    dm = ctx.body("types::DecodedMap::lookup_token")
+    fw = sorted(sh for sh, _, _ in q.def_shapes(dm, 0, {}))
+    ctx.check(len(fw) == 3 and all(q.wild("*::lookup_token(*,arg2,arg3)", sh) for sh in fw), rule, dm.path, "dispatch:same-query",
+              "a section's map of any kind (regular, index, Hermes) is asked for the very (line, column) it was given", detail=str(fw))
     GLBS = "try(utils::greatest_lower_bound(arg1.sections,tuple(arg2,arg3),fn:SourceMapSection::get_offset))"
     sec = named(b, lambda s: s == GLBS + ".1")
     mp = named(b, lambda s: s.startswith("try(SourceMapSection::get_sourcemap("))
